@@ -319,7 +319,6 @@ def verbose_rule(ctx, rule, funcs, why):
 
 # for-each loops with an effect on every item that may legitimately stop early (confirmed by reading)
 FOREACH_EXITS = {
-    ('gnpy.core.elements.Roadm.get_impairment', 'impairment_per_band'): 'search: the bands are disjoint, the first band holding the frequency is the only one',
     ('gnpy.topology.request.requests_aggregation', None): 'one request is merged into at most one other; the scan restarts for the next request',
 }
 
@@ -330,8 +329,12 @@ def foreach_effect(repo, f, lp):
     from ..effects import all_effects
     eff = all_effects(repo)
     lv = {x.id for x in ast.walk(lp.target) if isinstance(x, ast.Name)}
+    from ..pattern import mstmt
     for n in ast.walk(lp):
         if isinstance(n, (ast.Attribute, ast.Subscript)) and isinstance(n.ctx, ast.Store):
+            st = getattr(n, '_parent', None)
+            if isinstance(st, ast.Assign) and mstmt('E_x[E_k] = E_x.get(E_k, E_d)', st) is not None:
+                continue        # filling in the default a later .get(k, default) would give anyway: no effect on behaviour
             r = n
             while isinstance(r, (ast.Attribute, ast.Subscript)):
                 r = r.value
@@ -688,15 +691,18 @@ def roadm_path_lookup_rule(ctx, rule, why):
     for c in calls_to(f, {'set_roadm_paths'}):
         a = named_args(c)
         fr, to, imp = a.get('from_degree'), a.get('to_degree'), a.get('impairment_id')
-        ok = all(isinstance(x, ast.Name) for x in (fr, to, imp))
+        ok = all(isinstance(x, ast.Name) for x in (fr, to)) and imp is not None
         if ok:
-            # the closest definition of the impairment id above the call, in the same block
-            blk = getattr(stmt_of(f, c), '_parent', None)
-            body = [x for fld in ('body', 'orelse') for x in (getattr(blk, fld, []) or [])]
-            ds = [x for x in body if isinstance(x, ast.Assign) and ast.unparse(x.targets[0]) == imp.id and x.lineno < c.lineno]
-            ok = bool(ds) and isinstance(ds[-1].value, ast.Call) and getattr(ds[-1].value.func, 'attr', '') == 'get_per_degree_impairment_id'
+            # the look-up: written as the argument itself, or the closest definition of that local above the call, in the same block
+            look = imp
+            if isinstance(imp, ast.Name):
+                blk = getattr(stmt_of(f, c), '_parent', None)
+                body = [x for fld in ('body', 'orelse') for x in (getattr(blk, fld, []) or [])]
+                ds = [x for x in body if isinstance(x, ast.Assign) and ast.unparse(x.targets[0]) == imp.id and x.lineno < c.lineno]
+                look = ds[-1].value if ds else None
+            ok = isinstance(look, ast.Call) and getattr(look.func, 'attr', '') == 'get_per_degree_impairment_id'
             if ok:
-                la = named_args(ds[-1].value)
+                la = named_args(look)
                 lf, lt = la.get('from_degree'), la.get('to_degree')
                 ok = isinstance(lf, ast.Name) and isinstance(lt, ast.Name) and (lf.id, lt.id) == (fr.id, to.id)
         n += 1
